@@ -6,8 +6,9 @@ the model: when num.qv changes, re-read the changed definitions, update `Core/Nu
 theorems) accordingly, and only then copy the new entries from `Generated/NumShape.lean` here.
 `C20.num_shape_matches` (Theorems/C20Shape.lean) states that the table regenerated from the live
 source on every run equals this one.
-Last synchronised with /repo std/num.qv as of fix 05255d8 (min/max/clamp short-circuit on a nil
-comparison).
+Last synchronised with /repo std/num.qv as of fix 1b40f7e (floor / ceil dispatch on nil explicitly:
+`| =[] => [] | =x => { t = x to_int, { … } }`; model `Num.floor` / `Num.ceil` re-read and updated);
+before that 05255d8 (min/max/clamp short-circuit on a nil comparison).
 -/
 namespace QM.Num
 
@@ -146,16 +147,16 @@ def modelShape : ModuleShape where
       { pattern := "([[], _, _] | [_, [], _] | [_, _, []])", consequence := true, calls := [] },
       { pattern := "[x, lo, hi]", consequence := true, calls := ["compare", "compare"] }],
     skeleton := "#['opt, 'opt, 'opt] { =([[], _, _] | [_, [], _] | [_, _, []]) => [] | =[x, lo, hi] => { [x, lo] compare, { =-1 => lo | [x, hi] compare, { =1 => hi | x } } } }" },
-  { name := "floor", param := "'opt", binds := "t = $ to_int",
+  { name := "floor", param := "'opt", binds := "",
     branches := [
-      { pattern := "", consequence := true, calls := ["compare", "__integer_subtract__"] },
-      { pattern := "", consequence := false, calls := [] }],
-    skeleton := "#'opt { t = $ to_int, { [$, t] compare =-1 => [t, 1] __integer_subtract__ | t } }" },
-  { name := "ceil", param := "'opt", binds := "t = $ to_int",
+      { pattern := "[]", consequence := true, calls := [] },
+      { pattern := "x", consequence := true, calls := ["to_int", "compare", "__integer_subtract__"] }],
+    skeleton := "#'opt { =[] => [] | =x => { t = x to_int, { [x, t] compare =-1 => [t, 1] __integer_subtract__ | t } } }" },
+  { name := "ceil", param := "'opt", binds := "",
     branches := [
-      { pattern := "", consequence := true, calls := ["compare", "__integer_add__"] },
-      { pattern := "", consequence := false, calls := [] }],
-    skeleton := "#'opt { t = $ to_int, { [$, t] compare =1 => [t, 1] __integer_add__ | t } }" },
+      { pattern := "[]", consequence := true, calls := [] },
+      { pattern := "x", consequence := true, calls := ["to_int", "compare", "__integer_add__"] }],
+    skeleton := "#'opt { =[] => [] | =x => { t = x to_int, { [x, t] compare =1 => [t, 1] __integer_add__ | t } } }" },
   { name := "round", param := "'opt", binds := "",
     branches := [
       { pattern := "[]", consequence := true, calls := [] },
